@@ -271,4 +271,5 @@ def run(res, rng, tier, known):
     del TIES[:]
     res.extra["svd_contract_calls_bad"] = len(rec.svd_bad)
     return {"level": LEVEL, "rule": RULE, "assumptions": ASSUMPTIONS,
-            "not_by_theorem": ["the eps bound of the whole pipeline (needs the QR/SVD contracts and, for permute, the gauge of the neighbouring cores)"]}
+            "not_by_theorem": ["the eps bound of the truncating pipeline (needs orthonormal factors from QR/SVD and, for permute, the gauge of the neighbouring cores); value preservation without truncation IS a theorem (permuteTT_full, reshapeTT_full)",
+                               "TT-matrix branches of reshape / permute at value level (control flow and oracle only)"]}
